@@ -5,6 +5,7 @@ CONSTANTS
   Data <- DataA
   NumberMode = "conforming"
   MaxCalls = 7
+  GenTextIdx <- Idx123
   Depth = 7
 INIT HInit
 NEXT HNext
